@@ -179,12 +179,12 @@ class HdfModels:
     # ------------------------------------------------------------------ h5py.File / context manager
     def call_builtin(self, ex, name, args, kwargs, lineno, node=None):
         st = ex.st
-        if name == "h5py.File":
+        if name == "h5py.File" and _in_mod(ex):
             mode = args[1] if len(args) > 1 else kwargs.get("mode", "r")
             if not isinstance(mode, str):
                 raise Unsupported("h5py.File with a symbolic mode")
             return self._open(ex, mode)
-        if name == "h5py.string_dtype":
+        if name == "h5py.string_dtype" and _in_mod(ex):
             return BuiltinV("h5py.string_dtype()")
         if not _in_mod(ex):
             return NotImplemented
@@ -653,7 +653,27 @@ def sparse_facts(v):
 
 def csr_make_facts(d, i, p, s):
     r = csr_make(d, i, p, s)
-    return [is_sparse(r), sp_fmt(r) == FMT_CSR, sp_data(r) == d, sp_indices(r) == i, sp_indptr(r) == p, sp_shape(r) == s, sp_mat(r) == csr_den(d, i, p, s)]
+    return [is_sparse(r), sp_fmt(r) == FMT_CSR, sp_data(r) == d, sp_indices(r) == i, sp_indptr(r) == p, sp_shape(r) == s, sp_mat(r) == csr_den(d, i, p, s),
+            z3.Not(np_dtype_is_bytes(r)), z3.Not(np_dtype_is_str(r))]  # (sparse arrays have a numeric dtype)
+
+
+class _TAttrOpt(_T):
+    """Result of ``dataset.attrs.get(key)``: the attribute value or None.  (Own type, not TOpt: its truth value is
+    'present AND the value is truthy', see HdfCacheModels.truth.)"""
+
+    name = "H5AttrOrNone"
+    dt = TOpt(TVal).dt
+
+    def sort(self):
+        return self.dt
+
+    def embed(self, st, v):
+        if isinstance(v, SV) and v.ty == self:
+            return v.term
+        raise Unsupported(f"cannot embed {v!r} as an attribute value")
+
+
+TAttrOpt = _TAttrOpt()
 
 
 class _TDsetHandle(_T):
@@ -686,6 +706,8 @@ def _val_of(ex, v):
 
     if isinstance(v, SV) and isinstance(v.ty, TOpt):
         return v.ty.dt.get(v.term)
+    if isinstance(v, SV) and type(v.ty).__name__ == "TAddr":
+        return ex.st.symheap(v.ty.heap, v.ty.content.sort())[v.term]  # the content of the array object
     t = to_val(ex, v)
     if t is None:
         raise Unsupported(f"h5py model: cannot store {v!r}")
@@ -730,7 +752,10 @@ class HdfCacheModels:
             cur = attrs.vals[o.name]
             if name == "create":
                 kt = _str_term(ex, args[0])
-                vt = _val_of(ex, args[1] if len(args) > 1 else kwargs["data"])
+                raw = args[1] if len(args) > 1 else kwargs["data"]
+                vt = _val_of(ex, raw)
+                if raw is True:
+                    st.assume(val_truthy(vt))  # bool(True)
                 mem, vals, n = (ATTRS.acc(i)(cur) for i in range(3))
                 new = ATTRS.dt.mk(z3.Store(mem, kt, z3.BoolVal(True)), z3.Store(vals, kt, vt), z3.If(mem[kt], n, n + 1))
                 attrs.vals = z3.Store(attrs.vals, o.name, new)
@@ -738,7 +763,7 @@ class HdfCacheModels:
                 return None
             if name == "get" and len(args) == 1:
                 kt = _str_term(ex, args[0])
-                ot = TOpt(TVal)
+                ot = TAttrOpt
                 return SV(z3.If(ATTRS.acc(0)(cur)[kt], ot.dt.some(ATTRS.acc(1)(cur)[kt]), ot.dt.none), ot)
         if _kind(o) == "e" and name in ("h5:create_dataset", "h5:items"):
             ds, attrs = _dict(ex, o.fields["ds"]), _dict(ex, o.fields["attrs"])
@@ -762,8 +787,8 @@ class HdfCacheModels:
         return NotImplemented
 
     def truth(self, ex, v):
-        if isinstance(v, SV) and isinstance(v.ty, TOpt) and v.ty.inner == TVal and _in_cmod(ex):
-            return z3.And(z3.Not(v.ty.is_none(v.term)), val_truthy(v.ty.dt.get(v.term)))
+        if isinstance(v, SV) and v.ty == TAttrOpt:
+            return z3.And(z3.Not(v.ty.dt.is_none(v.term)), val_truthy(v.ty.dt.get(v.term)))
         return NotImplemented
 
     def call_builtin(self, ex, name, args, kwargs, lineno, node=None):
@@ -780,8 +805,8 @@ class HdfCacheModels:
                 if isinstance(x, Ref) and isinstance(st.heap[x.id], H5View) and st.heap[x.id].kind == "eds":
                     h = st.heap[x.id]
                     parts.append(_dict(ex, st.heap[h.parent.id].fields["ds"]).vals[h.name])
-                elif isinstance(x, SV) and isinstance(x.ty, TOpt):
-                    if st.decide(x.ty.is_none(x.term)):
+                elif isinstance(x, SV) and x.ty == TAttrOpt:
+                    if st.decide(x.ty.dt.is_none(x.term)):
                         raise _raise("TypeError", lineno)  # csr_array((data, None, ..)): invalid input
                     parts.append(x.ty.dt.get(x.term))
                 else:
@@ -789,7 +814,9 @@ class HdfCacheModels:
             for f in csr_make_facts(*parts):
                 st.assume(f)
             ex.assumed.add("S3: csr_array((data, indices, indptr), shape) is the CSR array with exactly these components")
-            return SV(csr_make(*parts), TVal)
+            from .values import TAddr
+
+            return SV(st.alloc_addr("arr", csr_make(*parts), ValS), TAddr("arr", TVal))  # a new array object
         return NotImplemented
 
     def call_repo_model(self, ex, fi, args, kwargs, lineno):
@@ -797,3 +824,257 @@ class HdfCacheModels:
             ex.assumed.add("to_real is the identity on real data (complex values: not covered)")
             return args[0]
         return NotImplemented
+
+
+# ------------------------------------------------------------------------------- the whole cache file (write_data / read_data)
+# The node ``hdf_node_path`` of the cache file: entries <index> -> {"hash": dataset, <group>: entry group}.  Flattened model (object kind
+# "cfile", referenced by HDF5FileSingleton.__file): ents (set of entry names), hashes (entry -> hash dataset), grps (set of
+# h5_path(entry, group)), gds / gat (h5_path(entry, group) -> datasets / attributes of the entry group).  ASSUMPTION (not verified):
+# the open/keep_open/close protocol of HDF5FileSingleton (``with self.__open(..)``) gives access to the persistent content of the
+# file and persists what is written (A1/A14); the lock is a no-op (single thread of control).
+from .values import TAddr as _TAddr, TSet as _TSet  # noqa: E402
+
+CGDS = TDict(TStr, EDS)
+CGAT = TDict(TStr, EAT)
+CFILE_SCHEMA = {"nmem": TInt, "node": TBool, "version": TOpt(TInt), "ents": _TSet(TStr), "hashes": TDict(TStr, TVal), "grps": _TSet(TStr), "gds": CGDS, "gat": CGAT}
+h5_path = z3.Function("h5_path", StrS, StrS, StrS)
+h5_path_e = z3.Function("h5_path_entry", StrS, StrS)
+h5_path_g = z3.Function("h5_path_group", StrS, StrS)
+np_dtype_is_str = z3.Function("np_dtype_is_str", ValS, z3.BoolSort())  # value.dtype.type is numpy.str_
+np_dtype_is_bytes = z3.Function("np_dtype_is_bytes", ValS, z3.BoolSort())  # value.dtype.type is numpy.bytes_
+np_to_bytes = z3.Function("np_astype_bytes", ValS, ValS)
+np_to_str = z3.Function("np_astype_str", ValS, ValS)
+hash_bytes = z3.Function("h5_hash_dataset", z3.IntSort(), ValS)  # array([hash], dtype="bytes")
+
+
+def path_of(i, g):
+    return h5_path(i, g)
+
+
+def path_facts(i, g):
+    p = h5_path(i, g)
+    return [h5_path_e(p) == i, h5_path_g(p) == g]
+
+
+def astype_facts(c):
+    """numpy (assumed): a str array converted to bytes is a bytes array, and converting it back gives the str array (ASCII)."""
+    return [z3.Implies(np_dtype_is_str(c), z3.And(np_dtype_is_bytes(np_to_bytes(c)), np_to_str(np_to_bytes(c)) == c, z3.Not(is_sparse(np_to_bytes(c)))))]
+
+
+class _DType:
+    def __init__(self, content, level):
+        self.content, self.level = content, level
+
+
+class HdfCacheFileModels:
+    def _file(self, ex, ref):
+        o = ex.st.heap[ref.id] if isinstance(ref, Ref) else None
+        return o if _kind(o) == "cfile" else None
+
+    def _content(self, ex, v):
+        if isinstance(v, SV) and isinstance(v.ty, _TAddr):
+            return ex.st.symheap(v.ty.heap, v.ty.content.sort())[v.term]
+        if isinstance(v, SV) and v.ty.sort() == ValS:
+            return v.term
+        return None
+
+    def _cgroup(self, ex, fref, i, g):
+        st = ex.st
+        f = st.heap[fref.id]
+        p = h5_path(i, g)
+        for fact in path_facts(i, g):
+            st.assume(fact)
+        gds, gat = _dict(ex, f.fields["gds"]), _dict(ex, f.fields["gat"])
+        o = PyObj(GROUP, {"ds": EDS.project(st, gds.vals[p], (f.fields["gds"], p, "dict")), "attrs": EAT.project(st, gat.vals[p], (f.fields["gat"], p, "dict"))})
+        o.schema_key = GROUP + "#e"
+        return st.alloc(o)
+
+    # -- with self.__open(..): the persistent content is reachable through self.__file (protocol assumed)
+    def call_repo_model(self, ex, fi, args, kwargs, lineno):
+        if fi.qualname in (CMOD + ".HDF5FileSingleton.__open", CMOD + ".HDF5FileSingleton._HDF5FileSingleton__open"):
+            ex.assumed.add("HDF5FileSingleton.__open/keep_open/close: inside `with self.__open(..)` self.__file gives access to the persistent content of the file, "
+                           "and what is written persists (protocol not verified; lock = no-op)")
+            return BuiltinV("nullcontext")
+        return NotImplemented
+
+    def pyobj_attr(self, ex, ref, o, attr, lineno):
+        if _kind(o) == "cfile" and attr == "attrs":
+            return ex.st.alloc(H5View("fattr", ref, None))
+        return NotImplemented
+
+    def setitem(self, ex, cont, key, v, lineno):
+        o = ex.st.heap[cont.id] if isinstance(cont, Ref) else None
+        if isinstance(o, H5View) and o.kind == "fattr" and key == "version":
+            t = TOpt(TInt)
+            ex.st.heap[o.parent.id].fields["version"] = SV(t.embed(ex.st, v), t)
+            return None
+        return NotImplemented
+
+    def ref_attr(self, ex, ref, o, attr, lineno):
+        if isinstance(o, _DTypeObj) and attr == "type" and o.level == 0:
+            return ex.st.alloc(_DTypeObj(o.content, 1))
+        return NotImplemented
+
+    def value_attr(self, ex, obj, attr, lineno):
+        if not _in_cmod(ex):
+            return NotImplemented
+        c = self._content(ex, obj)
+        if c is not None and attr == "dtype" and not isinstance(obj, _DType):
+            return ex.st.alloc(_DTypeObj(c, 0))
+        return NotImplemented
+
+    def length(self, ex, v, lineno):
+        f = self._file(ex, v)
+        if f is not None:
+            return f.fields["nmem"]
+        return NotImplemented
+
+    def module_constant(self, ex, mi, name):
+        if name == "sparse_classes" and _in_cmod(ex):  # (gated: other properties resolve this name through their own models)
+            return BuiltinV("scipy.sparse_classes")
+        return NotImplemented
+
+    def isinstance_(self, ex, v, cls):
+        if _in_cmod(ex) and isinstance(cls, BuiltinV) and cls.name == "scipy.sparse_classes":
+            c = self._content(ex, v)
+            if c is not None:
+                ex.assumed.add("isinstance(value, sparse_classes) is the uninterpreted predicate is_sparse(content)")
+                return SV(is_sparse(c), TBool)
+        return NotImplemented
+
+    def compare_any(self, ex, op, a, b, lineno):
+        if op in ("Is", "IsNot") and isinstance(a, Ref) and isinstance(ex.st.heap.get(a.id), _DTypeObj) and isinstance(b, BuiltinV):
+            d = ex.st.heap[a.id]
+            short = b.name.rsplit(".", 1)[-1]
+            if d.level == 1 and short in ("str_", "bytes_"):
+                t = (np_dtype_is_str if short == "str_" else np_dtype_is_bytes)(d.content)
+                return SV(t if op == "Is" else z3.Not(t), TBool)
+        return NotImplemented
+
+    def coerce(self, ex, v, t):
+        if t == TVal and isinstance(v, SV) and isinstance(v.ty, _TAddr) and _in_cmod(ex):
+            return SV(self._content(ex, v), TVal)  # the array object handed to a helper that only reads its content
+        return NotImplemented
+
+    def getitem(self, ex, cont, key, lineno):
+        st = ex.st
+        if not isinstance(cont, Ref):
+            return NotImplemented
+        o = st.heap[cont.id]
+        f = self._file(ex, cont)
+        if f is not None:
+            # file[node path]
+            if not st.decide(ex.truth(f.fields["node"])):
+                raise _raise("KeyError", lineno)
+            return st.alloc(H5View("croot", cont, None))
+        if isinstance(o, H5View) and o.kind == "croot":
+            kt = _str_term(ex, key)
+            fo = st.heap[o.parent.id]
+            if not st.decide(st.heap[fo.fields["ents"].id].member[kt]):
+                raise _raise("KeyError", lineno)
+            return st.alloc(H5View("centry", o.parent, kt))
+        if isinstance(o, H5View) and o.kind == "centry":
+            fo = st.heap[o.parent.id]
+            gt = _str_term(ex, key)
+            if not st.decide(st.heap[fo.fields["grps"].id].member[h5_path(o.name, gt)]):
+                raise _raise("KeyError", lineno)
+            return self._cgroup(ex, o.parent, o.name, gt)
+        return NotImplemented
+
+    def call_method(self, ex, recv, name, args, kwargs, lineno):
+        st = ex.st
+        if _in_cmod(ex) and name == "astype" and len(args) == 1:
+            c = self._content(ex, recv)
+            if c is not None:
+                tgt = args[0].name.rsplit(".", 1)[-1] if isinstance(args[0], BuiltinV) else args[0]
+                for fact in astype_facts(c):
+                    st.assume(fact)
+                ex.assumed.add("numpy astype: str -> bytes -> str is the identity on (ASCII) str arrays; a bytes array converted from a str array has dtype bytes_")
+                if tgt == "bytes":
+                    return SV(np_to_bytes(c), TVal)
+                if tgt == "str_" and isinstance(recv, SV) and isinstance(recv.ty, _TAddr):
+                    return SV(st.alloc_addr(recv.ty.heap, np_to_str(c), ValS), recv.ty)
+        if not isinstance(recv, Ref):
+            return NotImplemented
+        o = st.heap[recv.id]
+        if isinstance(o, _DTypeObj):
+            return NotImplemented
+        f = self._file(ex, recv)
+        nm = name[3:] if name.startswith("h5:") else name
+        if f is not None and nm == "require_group":
+            was = ex.truth(f.fields["node"])
+            f.fields["nmem"] = SV(z3.If(was, f.fields["nmem"].term, f.fields["nmem"].term + 1), TInt)
+            f.fields["node"] = True
+            return st.alloc(H5View("croot", recv, None))
+        if isinstance(o, H5View) and o.kind == "croot":
+            fo = st.heap[o.parent.id]
+            ents = st.heap[fo.fields["ents"].id]
+            kt = _str_term(ex, args[0])
+            if nm == "require_group":
+                from .models import _set_add
+
+                _set_add(ents, kt)
+                return st.alloc(H5View("centry", o.parent, kt))
+            if nm == "get" and len(args) == 1:
+                if st.decide(ents.member[kt]):
+                    return st.alloc(H5View("centry", o.parent, kt))
+                return None
+        if isinstance(o, H5View) and o.kind == "centry":
+            fo = st.heap[o.parent.id]
+            hashes, grps = _dict(ex, fo.fields["hashes"]), st.heap[fo.fields["grps"].id]
+            if nm == "get" and len(args) == 1 and args[0] == "hash":
+                ot = TOpt(TVal)
+                return SV(z3.If(hashes.member[o.name], ot.dt.some(hashes.vals[o.name]), ot.dt.none), ot)
+            if nm == "create_dataset" and args and args[0] == "hash":
+                if st.decide(hashes.member[o.name]):
+                    raise _raise("ValueError", lineno)
+                _dict_set(hashes, ex, o.name, _val_of(ex, kwargs.get("data", args[1] if len(args) > 1 else None)))
+                return None
+            gt = _str_term(ex, args[0])
+            p = h5_path(o.name, gt)
+            if nm == "get" and len(args) == 1:
+                if st.decide(grps.member[p]):
+                    return self._cgroup(ex, o.parent, o.name, gt)
+                return None
+            if nm == "require_group":
+                if not st.decide(grps.member[p]):
+                    from .models import _set_add
+
+                    _set_add(grps, p)
+                    gds, gat = _dict(ex, fo.fields["gds"]), _dict(ex, fo.fields["gat"])
+                    e1, e2 = DictObj.empty(st, TStr, TVal, ordered=True), DictObj.empty(st, TStr, ATTRS)
+                    _dict_set(gds, ex, p, EDS.dt.mk(e1.member, e1.vals, e1.n, e1.keys, e1.pos))
+                    _dict_set(gat, ex, p, EAT.dt.mk(e2.member, e2.vals, e2.n))
+                return self._cgroup(ex, o.parent, o.name, gt)
+        return NotImplemented
+
+    def call_builtin(self, ex, name, args, kwargs, lineno, node=None):
+        st = ex.st
+        if not _in_cmod(ex):
+            return NotImplemented
+        short = name.rsplit(".", 1)[-1]
+        if name == "str" and len(args) == 1 and ex.num(args[0]) is not None and ex.num(args[0])[1] == TInt:
+            return SV(str_of_int(ex.num(args[0])[0]), TStr)
+        if short == "array" and name.startswith("numpy") and len(args) == 1:
+            a = args[0]
+            if isinstance(a, Ref) and isinstance(st.heap[a.id], H5View) and st.heap[a.id].kind == "eds":
+                h = st.heap[a.id]
+                c = _dict(ex, st.heap[h.parent.id].fields["ds"]).vals[h.name]
+                ex.assumed.add("A12: array(dataset) is a new array holding the stored content")
+                t = _TAddr("arr", TVal)
+                return SV(st.alloc_addr("arr", c, ValS), t)
+            if isinstance(a, Ref) and isinstance(st.heap[a.id], ListObj) and "dtype" in kwargs:
+                lo = st.heap[a.id]
+                if lo.t == TInt and z3.is_int_value(z3.simplify(lo.n)) and z3.simplify(lo.n).as_long() == 1:
+                    return SV(hash_bytes(z3.simplify(lo.elems[0])), TVal)
+        return NotImplemented
+
+
+class _DTypeObj(HeapObj):
+    """``value.dtype`` (level 0) / ``value.dtype.type`` (level 1) of an array content."""
+
+    def __init__(self, content, level):
+        self.content, self.level = content, level
+
+    def clone(self):
+        return _DTypeObj(self.content, self.level)
